@@ -13,6 +13,7 @@ type vpByteReader struct {
 	chunk int  // > 0: short reads of at most chunk bytes
 	once  bool // one multi-byte read of the run, any of them, is cut short anywhere
 	fail  int  // >= 0: fail (injected error) once pos reaches fail
+	eof   bool // with fail: the stream ends there (io.EOF) instead of failing
 }
 
 var vpErrInjected = errors.New("vp: injected failure")
@@ -30,7 +31,7 @@ func (r *vpByteReader) Read(p []byte) (int, error) {
 	}
 	lim := r.limit()
 	if r.pos >= lim {
-		if lim < len(r.b) {
+		if lim < len(r.b) && !r.eof {
 			return 0, vpErrInjected
 		}
 		return 0, io.EOF
@@ -55,7 +56,7 @@ func (r *vpByteReader) Read(p []byte) (int, error) {
 func (r *vpByteReader) ReadByte() (byte, error) {
 	lim := r.limit()
 	if r.pos >= lim {
-		if lim < len(r.b) {
+		if lim < len(r.b) && !r.eof {
 			return 0, vpErrInjected
 		}
 		return 0, io.EOF
